@@ -103,7 +103,11 @@ Print Assumptions C15_model_uses_thread_automaton.
    BOUNDARY (not part of the model): the target queue is a counter `rootq` of how many times the source sits in it, and
    any idle thread may act as its worker; that the target queue eventually invokes what sits in it is C01 for the
    target.  Not modelled: more than 62 nested suspensions (side counter), over-resume, the "invalid suspension state"
-   crash, the life cycle after cancellation (a thread that gets there leaves the fragment: POut). *)
+   crash, the life cycle after cancellation (a thread that gets there leaves the fragment: POut).
+   POut IS ABSORBING: such a thread never becomes Idle again, so after one such call `quiescent` (every thread Idle) cannot
+   hold any more and the statements with a `quiescent` hypothesis (C15_merge_while_busy_delivered,
+   C15_terminal_all_delivered) say nothing about that execution; the other statements (exclusivity, responsibility,
+   conservation, the potential) still hold of it. *)
 
 (* the event handler of a source is never running on two threads at once, whatever queue it targets: the callout
    (PW_call -> PW_incall) lies inside the region protected by the drain lock of the real dq_state word; two threads in
@@ -232,7 +236,12 @@ Print Assumptions C15_terminal_all_delivered.
    (Model/SrcLaneR.v, lib/props/c15_replay.py).  The abstraction of each thread's recording into model actions and the
    proposed global order are untrusted; the scheduler takes an action only if the model state holds the value the
    implementation observed, the model step is enabled, and it produces the recorded words / program point / latched and
-   delivered value.  Whatever it is given, it only takes steps of the model: *)
+   delivered value.  Whatever it is given, it only takes steps of the model.
+   WHERE A REPLAY STARTS: from `SrcLaneR.init_from w0 inst`, the source at rest with the RECORDED first dq_state word w0
+   (admissible by init_word_ok: inactive as created, or idle and active), not from a state known to be `SrcLane.reach`-able
+   from init_state / init_inactive.  `reachw c w0 inst` below is reachability from that recorded start.  So a replayed
+   state gets the invariant Inv (C15_replay_sound) and what follows from Inv alone; the theorems of (B) that are stated
+   over `reach c rb` are not claimed of replayed states as such. *)
 Theorem C15_replay_reach : forall c L depths w0 inst fuel w ns np s qs ord done ok s' done' rest ok' qs',
   SrcLaneR_proofs.reachw c w0 inst s -> SrcLaneR.sched c L depths fuel w ns np s qs ord done ok = (s', done', rest, ok', qs') ->
   SrcLaneR_proofs.reachw c w0 inst s'.
